@@ -788,10 +788,11 @@ func runSearch(w *world, tier string, fracs fracmanager.List, si int, s searchSp
 		leaves[i] = qpr
 		live = append(live, i)
 	}
-	if lim.on() && w.fkind == "" {
-		// which fractions fail with ErrTooManyUniqValues, and does the Searcher fail
+	if lim.on() && w.fkind == "" && !w.big {
+		// which fractions fail with ErrTooManyUniqValues, and does the Searcher fail (production defaults, which
+		// cannot reject a small world: the Searcher's verdict only)
 		for k, i := range live {
-			if only == nil || only(100+k, -2) {
+			if lim.kind != limitsProd.kind && (only == nil || only(100+k, -2)) {
 				emitLimErr(w, s, si, fmt.Sprintf("fraction %d", i), 100+k, []int{i}, lim, limErr[i], baseInput, res)
 			}
 		}
@@ -898,7 +899,8 @@ func runSearch(w *world, tier string, fracs fracmanager.List, si int, s searchSp
 				emitAggF(w, s, si, ti, ai, a, run.t, run.qpr, live, run.leafQ, baseInput, res)
 			}
 		}
-		if s.hist > 0 && w.fkind == "" && (only == nil || only(ti, -1)) {
+		// the histogram does not depend on the aggregation limits: with limits on only in the thorough tier
+		if s.hist > 0 && w.fkind == "" && (!lim.on() || tier != "quick") && (only == nil || only(ti, -1)) {
 			emitHist(w, s, si, ti, run.t, run.qpr, live, baseInput, res)
 		}
 	}
